@@ -1,13 +1,49 @@
 //! C03 — Tiny v2 files round-trip and are written canonically.
 //!
-//! Engine: explicit-state exploration (stateright BFS) of *insertion histories*. A state is the
-//! sequence of elements inserted so far into a real `quill::tree::mappings::Mappings`; an action
-//! inserts one more element whose parent is already present. Histories with the same content are
-//! deliberately different states: insertion order is the thing explored. On every state the real
-//! writer and reader are run and compared with the reference model (mapmodel).
+//! Engine H (this file): explicit-state exploration (stateright BFS) of *insertion histories*. A state is the
+//! sequence of elements inserted so far into a real `quill::tree::mappings::Mappings`; an action inserts one more
+//! element whose parent is already present. Histories with the same content are deliberately different states:
+//! insertion order is the thing explored. On every state the real writer and reader are run and compared with the
+//! reference model (mapmodel).
+//! Engines in `c03/sweeps.rs` (exhaustive input-shape sweeps sharing one judge with the same oracles):
+//!   S1 content sweep — every mapping set of a generated space (mapmodel::gen) × all 6 arrangements of the
+//!      siblings of every level, plus two reference-printed files of the same content with other line orders
+//!      through the real reader; S2 comment sweep — every comment of ≤ L characters over {backslash, line break,
+//!      n, ü, 😀, space} on every level; S3 bulk — sets whose text is several times the 8 KiB buffers.
+//! Engines in `c03/lines.rs` (texts no writer produced, through the real reader):
+//!   L1 every sequence of ≤ L lines over an 18-line (N=2) and a 10-line (N=3) alphabet, with and without the final
+//!      line break; L2 every comment cell of ≤ L characters over {backslash, n, x, ü}; L3 probes outside the
+//!      domain (no panic; outcomes recorded).
 //!
-//! Second engine: exhaustive enumeration of short line sequences fed to the real reader
-//! ("reading never merges, loses or re-parents").
+//! Clause table (statement / quantifier → where decided, over which space)
+//!
+//! | clause | oracle (difference key) | space |
+//! |---|---|---|
+//! | read(write(M)) has the same namespaces | H `check_state` (1), S `judge` "read(write(M)) == M" (`roundtrip:namespaces`) | H all universes (ASCII namespaces, N=2,3,4); S1 namespaces with a non-ASCII name |
+//! | same classes / fields / methods / parameters (nothing lost or invented) | same (`roundtrip:<level>:missing/extra`), and the reference reader on the written text (`text:…`) | H, S1 (every subset of a 3-class/3-field/3-method/2-parameter universe), S3 |
+//! | same names per namespace | same (`roundtrip:<level>.names`) | H missing-name patterns × N; S1 every subset of non-source names missing (N=2,3), 3–4 patterns (N=4), on classes, members, parameters independently |
+//! | same descriptors | same (member keys carry the descriptor) + `KeyMismatch` of `from_quill` (`roundtrip:key-invariant`) | H shapes b, c, d, u (overloads, object/array descriptors with non-ASCII class names); S1 |
+//! | same comments | same (`roundtrip:<level>.comment`) | H comment alphabet (10 texts) in every slot; S2 all texts ≤ L over 6 characters × 5 placements; S1 comments × missing names |
+//! | reading never merges, loses or re-parents an entry | L1 `judge_text`: accepted ⇒ structure equals the reference reading (`lines:<level>…`), accepted although a line has no parent (`lines:accepted-orphan`) or an entry is stated twice (`lines:accepted-duplicate`); S `file-order:read:…` (a valid file in another line order is read as the same set); L2 `cell:…` | L1 two alphabets (second field/method/parameter so that a child can be attached to the wrong sibling; unknown sections; short rows), L2 |
+//! | the text depends only on the content, never on insertion order | H (3) confluence over *all* histories of a content (`order:text-depends-on-insertion-order`); S1/S3 all 6 arrangements / 6 arrangement families give the same bytes; S `order:text-depends-on-file-order` (content read from a differently ordered file is written as the same bytes) | H: shape d has members whose names and descriptors order in opposite directions and members sharing a descriptor; S1: the same, plus members with equal non-source names, two nameless parameters |
+//! | write(read(write(M))) is byte-identical to write(M) | H (4), S `judge` (`fixpoint:…`) | every state / content of H, S1, S2, S3 |
+//! | observe_at: write_string | H (0), S `judge` (`write_string:differs-from-write_vec`) | every state / content |
+//! | quantifier: 2..4 namespaces | H: every shape × every pattern for N=2,3,4 (quick too); S1 N=2,3,4 | |
+//! | quantifier: arbitrary missing names in non-source namespaces | H 4 patterns (+ all 2^7 masks of shape a, thorough); S1 see "names" | |
+//! | quantifier: nested/inner class names | H `A$B`, `p/C`, `Ü/É$ñ`; S1 `p/A$B` with targets `q/X$Y`, `𝒳/z` | |
+//! | quantifier: unicode names | H shape u (2-, 3-, 4-byte characters in class, field, method names, descriptors and all non-source names); S1, S3 | |
+//! | quantifier: multi-line comments | H, S2 (every mix of line breaks, backslashes, `n`, non-ASCII, spaces) | |
+//! | quantifier: parameters without source names | H shapes a, c, u; S1 (also nameless in every namespace, index 300) | |
+//! | quantifier: any insertion order of the same content | H: all histories (cross-level interleavings too); S1: all permutations per level | |
+//!
+//! Not decided: the top-level `Mappings.javadoc` (the writer emits a line the reader refuses; excluded by the
+//! quantifier's list and documented in DESIGN §2), comments with TAB/CR (outside the quantifier; probed only),
+//! `read_file` (a wrapper, not in observe_at).
+
+#[path = "c03/sweeps.rs"]
+mod sweeps;
+#[path = "c03/lines.rs"]
+mod lines;
 
 use std::collections::{BTreeMap, HashMap};
 use std::sync::atomic::{AtomicU64, Ordering};
@@ -19,7 +55,6 @@ use quill::tree::mappings::{
 };
 use quill::tree::NodeInfo;
 use quill::tree::names::Names;
-use rayon::prelude::*;
 use stateright::{Checker, Model, Property};
 use vcore::{json, Ctx, Stats, Value};
 
@@ -206,6 +241,8 @@ fn method_of<'a, const N: usize>(u: &Universe, c: &'a mut ClassNowodeMapping<N>,
 /// One observation of the real code on one history.
 struct Obs {
 	text: Result<Vec<u8>, String>,
+	/// the same object through `write_string`
+	string: Result<String, String>,
 	reread: Option<Result<MSet, String>>,
 	rewritten: Option<Result<Vec<u8>, String>>,
 }
@@ -213,6 +250,7 @@ struct Obs {
 fn observe_n<const N: usize>(u: &Universe, history: &[u8]) -> Obs {
 	let q = build::<N>(u, history);
 	let text = quill::tiny_v2::write_vec(&q).map_err(|e| format!("{e:#}"));
+	let string = quill::tiny_v2::write_string(&q).map_err(|e| format!("{e:#}"));
 	let mut reread = None;
 	let mut rewritten = None;
 	if let Ok(t) = &text {
@@ -225,7 +263,7 @@ fn observe_n<const N: usize>(u: &Universe, history: &[u8]) -> Obs {
 			Err(e) => reread = Some(Err(format!("{e:#}"))),
 		}
 	}
-	Obs { text, reread, rewritten }
+	Obs { text, string, reread, rewritten }
 }
 
 fn observe(u: &Universe, history: &[u8]) -> Obs {
@@ -244,6 +282,31 @@ struct HistModel {
 	/// content mask → hash of the text its first-seen history produced (+ that history)
 	canon: &'static Mutex<HashMap<u32, (u64, Vec<u8>)>>,
 	multi_history_contents: &'static Mutex<HashMap<u32, u64>>,
+	/// states whose text lists the members of a class in another order than that of their source names
+	reordered: &'static AtomicU64,
+}
+
+/// true if the `f` lines or the `m` lines of some class are not in ascending order of (source name, descriptor),
+/// i.e. the writer's order is observably not the key order of the maps
+fn member_lines_not_in_key_order(text: &[u8]) -> bool {
+	let Ok(text) = std::str::from_utf8(text) else { return false };
+	let mut last: [Option<(&str, &str)>; 2] = [None, None];
+	for l in text.lines() {
+		if l.starts_with("c\t") {
+			last = [None, None];
+		}
+		let slot = if l.starts_with("\tf\t") { 0 } else if l.starts_with("\tm\t") { 1 } else { continue };
+		let cells: Vec<&str> = l[1..].split('\t').collect();
+		if cells.len() < 3 {
+			continue;
+		}
+		let key = (cells[2], cells[1]);
+		if last[slot].is_some_and(|prev| prev > key) {
+			return true;
+		}
+		last[slot] = Some(key);
+	}
+	false
 }
 
 fn mask_of(h: &[u8]) -> u32 {
@@ -278,6 +341,15 @@ impl HistModel {
 				return;
 			},
 		};
+		// (0) write_string is write_vec as a String
+		match &obs.string {
+			Ok(s) if s.as_bytes() == &text[..] => {},
+			Ok(s) => self.ctx.diff("write_string:differs-from-write_vec", "write_string and write_vec give different texts for the same object", || format!("{}\nwrite_vec:\n{}\nwrite_string:\n{s}", self.replay_text(history), String::from_utf8_lossy(text))),
+			Err(e) => self.ctx.diff("write_string:refused", &format!("write_string failed where write_vec succeeded: {e}"), || self.replay_text(history)),
+		}
+		if member_lines_not_in_key_order(text) {
+			self.reordered.fetch_add(1, Ordering::Relaxed);
+		}
 		// (1) read(write(M)) == M
 		match &obs.reread {
 			Some(Ok(back)) => {
@@ -432,7 +504,7 @@ fn universe(label: &str, ns: &[&str], classes: &[(&str, &[(&str, &str)], &[(&str
 	Universe { label: label.to_owned(), ns: ns.iter().map(|s| s.to_string()).collect(), elems }
 }
 
-const COMMENTS: &[&str] = &["x", "a b", "l1\nl2", "l1\n\nl3", "ü☃ É", "", "back\\nslash", "tail\\"];
+const COMMENTS: &[&str] = &["x", "a b", "l1\nl2", "l1\n\nl3", "ü☃ É", "", "back\\nslash", "tail\\", "é\\ü\n😀", " x "];
 
 type ClassSpec<'a> = (&'a str, &'a [(&'a str, &'a str)], &'a [(&'a str, &'a str, &'a [(usize, bool)])]);
 
@@ -455,6 +527,17 @@ fn universes(tier: vcore::Tier) -> Vec<Universe> {
 		("A", &[("É", "[LA;")], &[]),
 		("p/C", &[], &[]),
 	];
+	// names and descriptors of the members order in opposite directions (a/J, b/I), two members share a
+	// descriptor (b/I, c/I): the writer's order (descriptor, names) is not the key order (name, descriptor)
+	let shape_d: Vec<ClassSpec> = vec![
+		("x", &[("a", "J"), ("b", "I"), ("c", "I")], &[("a", "(J)V", &[]), ("b", "(I)V", &[]), ("c", "(I)V", &[])]),
+	];
+	// multi-byte characters (2, 3 and 4 bytes) in every kind of name and, through the tails, in every namespace;
+	// two parameters without source names, one with an index beyond two bytes
+	let shape_u: Vec<ClassSpec> = vec![
+		("Ü/É$ñ", &[("ü", "LÜ/É$ñ;")], &[("λ", "(L𝒳;I)V", &[(65536, false), (0, false)])]),
+		("𝒳", &[("☃", "I")], &[]),
+	];
 	let ns_sets: Vec<Vec<&str>> = vec![vec!["official", "named"], vec!["a", "b", "c"], vec!["a", "b", "c", "d"]];
 	let no_comment = |_: usize| None;
 	// missing-name patterns over (element index, namespace index)
@@ -466,10 +549,7 @@ fn universes(tier: vcore::Tier) -> Vec<Universe> {
 	];
 	for ns in &ns_sets {
 		for (pname, pat) in &patterns {
-			if tier == vcore::Tier::Quick && ns.len() == 4 && *pname != "alternating" {
-				continue;
-			}
-			for (sname, shape) in [("a", &shape_a), ("b", &shape_b), ("c", &shape_c)] {
+			for (sname, shape) in [("a", &shape_a), ("b", &shape_b), ("c", &shape_c), ("d", &shape_d), ("u", &shape_u)] {
 				out.push(universe(&format!("shape-{sname}/N={}/{pname}", ns.len()), ns, shape, pat.as_ref(), &no_comment));
 			}
 		}
@@ -497,61 +577,6 @@ fn universes(tier: vcore::Tier) -> Vec<Universe> {
 	out
 }
 
-// ---------------------------------------------------------------------------------------------
-// second engine: line sequences through the real reader
-
-const LINE_ALPHABET: &[&str] = &[
-	"c\tA\tX",
-	"c\tB\tY",
-	"\tf\tI\tf\tg",
-	"\tm\t()V\tm\tn",
-	"\t\tp\t0\t\tq",
-	"\tc\tdoc1",
-	"\t\tc\tdoc2",
-	"\t\t\tc\tdoc3",
-	"\t\t\t\tc\tdoc4",
-];
-
-fn run_lines(ctx: &Ctx, max_len: usize) -> Stats {
-	let total = vcore::enumerate::strings_count(LINE_ALPHABET.len(), max_len);
-	(0..total).into_par_iter().fold(Stats::new, |mut st, idx| {
-		let lines = vcore::enumerate::string_nth(LINE_ALPHABET, max_len, idx);
-		let mut text = String::from("tiny\t2\t0\ta\tb\n");
-		for l in &lines {
-			text.push_str(l);
-			text.push('\n');
-		}
-		st.eval();
-		let real = vcore::guard(|| {
-			let r: anyhow::Result<Mappings<2, ()>> = quill::tiny_v2::read(&mut text.as_bytes());
-			r.map(|q| mapmodel::from_quill(&q)).map_err(|e| format!("{e:#}"))
-		});
-		let reference = tiny::parse_lenient(&text);
-		match (real, reference) {
-			(Err(p), _) => ctx.diff(&format!("lines:panic@{}", p.file()), &format!("reader panicked at {}: {}", p.site, p.msg), || text.clone()),
-			(Ok(Ok(Err(k))), _) => ctx.diff("lines:key-invariant", &k.0, || text.clone()),
-			(Ok(Ok(Ok(seen))), Ok((want, unknown))) => {
-				st.outcome(if unknown == 0 { "both-accept" } else { "both-accept-skipping-unknown-section" });
-				st.distinct.add(&seen);
-				if seen != want {
-					let (k, what) = mapmodel::first_difference(&want, &seen).unwrap_or(("other".into(), "differ".into()));
-					ctx.diff(&format!("lines:{k}"), &format!("accepted text read with a different structure: {what}"), || text.clone());
-				}
-				st.sample(if unknown == 0 { "lines" } else { "lines-unknown" }, || json!({"kind": "line-sequence", "text": text, "entries": seen.entries(), "unknown_sections_skipped": unknown}));
-			},
-			(Ok(Ok(Ok(_))), Err(_)) => {
-				// The reference reader judges this text to be outside the format (a line without a
-				// possible parent). Accepting it would mean an entry was attached somewhere it does not belong.
-				ctx.diff("lines:accepted-orphan", "reader accepted a text in which a line has no parent one level up", || text.clone());
-			},
-			(Ok(Err(_)), Ok((_, 0))) => st.outcome("real-refuses-valid"),
-			(Ok(Err(_)), Ok(_)) => st.outcome("real-refuses-unknown-section"),
-			(Ok(Err(_)), Err(_)) => st.outcome("both-refuse"),
-		}
-		st
-	}).reduce(Stats::new, Stats::merge)
-}
-
 fn main() {
 	let ctx: &'static Ctx = Box::leak(Box::new(Ctx::new("C03", "model_checking")));
 	if let Some(path) = ctx.replay.clone() {
@@ -559,6 +584,7 @@ fn main() {
 	}
 	let unis = universes(ctx.tier);
 	let evals: &'static AtomicU64 = Box::leak(Box::new(AtomicU64::new(0)));
+	let reordered: &'static AtomicU64 = Box::leak(Box::new(AtomicU64::new(0)));
 	let mut states = 0u64;
 	let mut transitions = 0u64;
 	let mut max_depth = 0usize;
@@ -567,6 +593,7 @@ fn main() {
 	let mut distinct_texts = vcore::Distinct::new();
 	let mut samples: Vec<Value> = Vec::new();
 	let n_universes = unis.len();
+	let t0 = ctx.elapsed_s();
 	for u in unis {
 		let canon: &'static Mutex<HashMap<u32, (u64, Vec<u8>)>> = Box::leak(Box::new(Mutex::new(HashMap::new())));
 		let multi_map: &'static Mutex<HashMap<u32, u64>> = Box::leak(Box::new(Mutex::new(HashMap::new())));
@@ -588,7 +615,7 @@ fn main() {
 			let obs = observe(&u, &full);
 			samples.push(json!({"kind": "insertion-history", "universe": u.label, "history": full, "written": String::from_utf8_lossy(obs.text.as_deref().unwrap_or(b"")).to_string()}));
 		}
-		let model = HistModel { u, ctx, evals, canon, multi_history_contents: multi_map };
+		let model = HistModel { u, ctx, evals, canon, multi_history_contents: multi_map, reordered };
 		let checker = model.checker().threads(rayon::current_num_threads().max(1)).spawn_bfs().join();
 		if !checker.is_done() {
 			vcore::machinery_fail("stateright did not finish the state space");
@@ -603,48 +630,117 @@ fn main() {
 		}
 		multi += multi_map.lock().unwrap().len() as u64;
 	}
-	let line_len = ctx.tier.pick(4, 5);
-	let lines = run_lines(ctx, line_len);
+	let t_hist = ctx.elapsed_s();
 	let evaluated = evals.load(Ordering::Relaxed);
+
+	// exhaustive sweeps (c03/sweeps.rs, c03/lines.rs)
+	let spaces = sweeps::content_spaces(ctx.tier);
+	let (content, space_sizes) = sweeps::content_sweep(ctx, &spaces);
+	let t_content = ctx.elapsed_s();
+	let comment_len = ctx.tier.pick(4, 6);
+	let (comment, comment_mixed, comment_edge) = sweeps::comment_sweep(ctx, comment_len);
+	let t_comment = ctx.elapsed_s();
+	let bulk_sizes: Vec<(usize, usize)> = ctx.tier.pick(vec![(300, 2), (300, 3)], vec![(300, 2), (300, 3), (1500, 2), (1500, 4)]);
+	let bulk = sweeps::bulk(ctx, &bulk_sizes);
+	let t_bulk = ctx.elapsed_s();
+	let line_len = ctx.tier.pick(4, 5);
+	let line_len_3 = ctx.tier.pick(5, 6);
+	let lines2 = lines::run_lines(ctx, &lines::LINES_2, line_len);
+	let lines3 = lines::run_lines(ctx, &lines::LINES_3, line_len_3);
+	let line_evals = lines2.evaluations + lines3.evaluations;
+	let lines = lines2.merge(lines3);
+	let cell_len = ctx.tier.pick(6, 8);
+	let cells = lines::run_cells(ctx, cell_len);
+	let probes = lines::run_probes(ctx);
+	let t_lines = ctx.elapsed_s();
 
 	ctx.floor("universes explored", 20, n_universes as u64);
 	ctx.floor("contents reached through more than one insertion order", 100, multi);
 	ctx.floor("every state evaluated by the oracle", states, evaluated);
+	ctx.floor("history states whose text lists members in another order than their source names", 100, reordered.load(Ordering::Relaxed));
 	ctx.floor("line sequences accepted by both readers", 50, lines.get("both-accept"));
 	ctx.floor("line sequences refused", 50, lines.get("both-refuse"));
+	ctx.floor("line sequences refused for a line without parent", 50, lines.get("both-refuse:orphan"));
+	ctx.floor("line sequences refused for an entry stated twice", 50, lines.get("both-refuse:duplicate"));
+	ctx.floor("line sequences accepted with an entry below the second method of a class", 10, lines.get("accepted-with-entry-below-second-method"));
+	ctx.floor("line sequences accepted while skipping an unknown section", 10, lines.get("both-accept-skipping-unknown-section"));
+	ctx.floor("line sequences read without a final line break", 1000, lines.get("texts-without-final-newline"));
+	ctx.floor("content sweep: contents judged", 100_000, content.cases);
+	ctx.floor("content sweep: builds in an insertion order other than key order", 100_000, content.reordered_builds);
+	ctx.floor("content sweep: contents whose text lists members in another order than their source names", 10_000, content.texts_not_in_key_order);
+	ctx.floor("content sweep: round trips judged equal", content.cases, content.stats.get("roundtrip-ok"));
+	ctx.floor("content sweep: reference-printed files read by the real reader", content.cases, content.stats.get("reference-file-read"));
+	ctx.floor("comment sweep: comments with a non-ASCII character and an escape", 100, comment_mixed);
+	ctx.floor("comment sweep: comments beginning or ending with a space or ending with a backslash", 100, comment_edge);
+	ctx.floor("comment sweep: round trips judged equal", comment.cases, comment.stats.get("roundtrip-ok"));
+	ctx.floor("bulk: largest text in bytes (the writer's and reader's buffers are 8 KiB)", 32 * 1024, bulk.max_text_len as u64);
+	ctx.floor("bulk: round trips judged equal", bulk.cases, bulk.stats.get("roundtrip-ok"));
+	ctx.floor("comment cells with a backslash that starts no escape, read", 100, cells.get("cell:lone-backslash-read"));
+	ctx.floor("comment cells well escaped, read", 100, cells.get("cell:well-escaped-read"));
+	ctx.floor("probes outside the domain", 10, probes.evaluations);
 
 	samples.extend(lines.samples.iter().cloned());
+	samples.extend(content.stats.samples.iter().cloned());
+	samples.extend(comment.stats.samples.iter().cloned());
+	distinct_texts.merge(content.stats.distinct.clone());
+	distinct_texts.merge(comment.stats.distinct.clone());
+	distinct_texts.merge(bulk.stats.distinct.clone());
+	let sweep_evals = content.stats.evaluations + comment.stats.evaluations + bulk.stats.evaluations;
 	let coverage = json!({
 		"states": states,
 		"transitions": transitions,
 		"traces_validated_against_impl": evaluated,
 		"max_depth": max_depth,
-		"evaluations": evaluated + lines.evaluations,
+		"evaluations": evaluated + sweep_evals + line_evals + cells.evaluations + probes.evaluations,
 		"distinct_nontrivial": distinct_texts.len(),
-		"rule": "a state is one insertion history (sequence of class/field/method/parameter/comment insertions, parent before child) replayed into a real quill Mappings; every state runs write→read→write on the real code and the reference reader on the text. distinct_nontrivial = distinct written texts over all contents; line sweep = every sequence of ≤L lines over a 9-line alphabet through the real reader",
+		"rule": "a state is one insertion history (sequence of class/field/method/parameter/comment insertions, parent before child) replayed into a real quill Mappings; every state runs write_vec, write_string, read, write_vec on the real code and the reference reader on the text. Sweeps: every content of a generated space x every permutation of the siblings of every level (6 builds, 2 reference-printed files through the real reader per content); every comment text of <= L characters on every level; large sets; every sequence of <= L lines over two line alphabets, with and without the final line break, through the real reader; every comment cell of <= L characters. distinct_nontrivial = distinct written texts over all contents of all engines",
 		"exhaustive": true,
 		"samples": samples,
 		"bounds": {
 			"universes": n_universes,
 			"namespaces": [2, 3, 4],
 			"comment_alphabet": COMMENTS,
-			"line_alphabet": LINE_ALPHABET,
+			"content_spaces": space_sizes.iter().map(|(l, n)| json!({"space": l, "contents": n, "insertion_arrangements_per_content": sweeps::CONTENT_ORDERS.len(), "reference_files_per_content": sweeps::CONTENT_REF_ORDERS.len()})).collect::<Vec<_>>(),
+			"comment_sweep": {"characters": sweeps::COMMENT_CHARS.iter().map(|c| c.to_string()).collect::<Vec<_>>(), "max_len": comment_len, "placements": ["class", "field", "method", "parameter", "all four"]},
+			"bulk_sets": bulk_sizes.iter().map(|(k, n)| json!({"classes": k, "namespaces": n})).collect::<Vec<_>>(),
+			"line_alphabets": [
+				{"namespaces": 2, "lines": lines::LINES_2.lines, "max_len": line_len},
+				{"namespaces": 3, "lines": lines::LINES_3.lines, "max_len": line_len_3},
+			],
+			"line_alphabet": lines::LINES_2.lines,
 			"line_sequence_max_len": line_len,
+			"comment_cells": {"characters": lines::CELL_CHARS.iter().map(|c| c.to_string()).collect::<Vec<_>>(), "max_len": cell_len},
 		},
 		"contents": contents,
 		"contents_with_more_than_one_history": multi,
-		"line_sweep": {"evaluations": lines.evaluations, "outcomes": lines.outcomes, "distinct_accepted_structures": lines.distinct.len()},
+		"outcomes": {
+			"content_sweep": content.stats.outcomes,
+			"comment_sweep": comment.stats.outcomes,
+			"bulk": bulk.stats.outcomes,
+			"line_sweep": lines.outcomes,
+			"comment_cells": cells.outcomes,
+			"probes_outside_domain": probes.outcomes,
+		},
+		"line_sweep": {"evaluations": line_evals, "outcomes": lines.outcomes, "distinct_accepted_structures": lines.distinct.len()},
+		"content_sweep": {"evaluations": content.stats.evaluations, "reordered_builds": content.reordered_builds, "texts_not_in_key_order": content.texts_not_in_key_order},
+		"comment_sweep": {"evaluations": comment.stats.evaluations, "mixed_non_ascii_and_escape": comment_mixed},
+		"comment_cells": {"evaluations": cells.evaluations, "distinct_comments_read": cells.distinct.len()},
 	});
+	eprintln!("C03 phases (s): histories {:.1}, content {:.1}, comments {:.1}, bulk {:.1}, lines+cells+probes {:.1}", t_hist - t0, t_content - t_hist, t_comment - t_content, t_bulk - t_comment, t_lines - t_bulk);
 	ctx.finish(coverage, &[
 		"names containing TAB or newline are outside the Tiny v2 format and outside the alphabet",
+		"comments containing TAB or CR are outside the quantifier (probed for panics only; outcomes are recorded)",
 		"the top-level mappings comment is never produced by the reader and is not generated",
 		"stateright's BFS visits every reachable state (its exhaustiveness is trusted)",
 		"mapmodel's reference reader is the independent reading of the format",
+		"a text the statement says nothing about (wrong cell counts, a backslash that starts no escape, unknown sections) may be accepted or refused; only panics and wrong structure are charged",
 	]);
 }
 
 fn replay(ctx: &'static Ctx, path: &std::path::Path) -> ! {
 	let body = vcore::replay_body(path);
+	let field = |name: &str| -> Option<String> { body.lines().find_map(|l| l.strip_prefix(name).map(|v| v.to_owned())) };
+	let num = |name: &str| -> u64 { field(name).and_then(|v| v.trim().parse().ok()).unwrap_or_else(|| vcore::machinery_fail(&format!("replay: no {name}"))) };
 	if let Some(rest) = body.strip_prefix("universe=") {
 		let label = rest.lines().next().unwrap_or("").to_owned();
 		let hist_line = body.lines().find(|l| l.starts_with("history=")).unwrap_or_else(|| vcore::machinery_fail("no history in replay"));
@@ -656,6 +752,7 @@ fn replay(ctx: &'static Ctx, path: &std::path::Path) -> ! {
 			evals: Box::leak(Box::new(AtomicU64::new(0))),
 			canon: Box::leak(Box::new(Mutex::new(HashMap::new()))),
 			multi_history_contents: Box::leak(Box::new(Mutex::new(HashMap::new()))),
+			reordered: Box::leak(Box::new(AtomicU64::new(0))),
 		};
 		// the confluence oracle needs the canonical history of the same content first
 		let mut sorted = history.clone();
@@ -668,20 +765,37 @@ fn replay(ctx: &'static Ctx, path: &std::path::Path) -> ! {
 		if a != b {
 			vcore::machinery_fail("replay is not deterministic");
 		}
-	} else {
-		// a line-sequence case
-		let text = body.trim_end_matches('\n').to_owned() + "\n";
-		let real = vcore::guard(|| {
-			let r: anyhow::Result<Mappings<2, ()>> = quill::tiny_v2::read(&mut text.as_bytes());
-			r.map(|q| mapmodel::from_quill(&q)).map_err(|e| format!("{e:#}"))
-		});
-		let reference = tiny::parse(&text);
-		println!("real: {real:?}\nreference: {reference:?}");
-		match (real, reference) {
-			(Ok(Ok(Ok(seen))), Ok(want)) if seen == want => {},
-			(Ok(Err(_)), _) => {},
-			_ => ctx.diff("lines:replay", "line-sequence replay disagrees", || text.clone()),
+	} else if body.starts_with("sweep=content") {
+		let label = field("space=").unwrap_or_else(|| vcore::machinery_fail("replay: no space"));
+		let idx = num("index=");
+		let space = [vcore::Tier::Quick, vcore::Tier::Thorough].into_iter().flat_map(sweeps::content_spaces).find(|s| s.label == label).unwrap_or_else(|| vcore::machinery_fail("unknown content space"));
+		let space = mapmodel::gen::Space::new(&space.universe);
+		if idx >= space.len() {
+			vcore::machinery_fail("replay: index outside the space");
 		}
+		for _ in 0..2 {
+			sweeps::content_case(ctx, &mut sweeps::SweepOut::default(), &label, &space, idx);
+		}
+	} else if body.starts_with("sweep=comment") {
+		for _ in 0..2 {
+			sweeps::comment_case(ctx, &mut sweeps::SweepOut::default(), num("max_len=") as usize, num("index="), num("level=") as usize);
+		}
+	} else if body.starts_with("sweep=bulk") {
+		sweeps::bulk_case(ctx, &mut sweeps::SweepOut::default(), num("classes=") as usize, num("namespaces=") as usize);
+	} else if body.starts_with("probe=") {
+		lines::run_probes(ctx);
+	} else {
+		// a text for the reader (line sequence or comment cell)
+		let (text, final_newline) = match body.strip_prefix(lines::NO_FINAL_NEWLINE) {
+			Some(rest) => (rest.trim_start_matches('\n').to_owned(), false),
+			None => (body.clone(), true),
+		};
+		let text = text.trim_end_matches('\n').to_owned() + if final_newline { "\n" } else { "" };
+		let n = text.lines().next().map(|h| h.split('\t').count().saturating_sub(3)).unwrap_or(2).clamp(2, 4);
+		let mut st = Stats::new();
+		lines::judge_text(ctx, &mut st, n, &text);
+		lines::judge_text(ctx, &mut st, n, &text);
+		println!("outcomes: {:?}", st.outcomes);
 	}
 	ctx.finish(json!({"states": 1, "transitions": 1, "traces_validated_against_impl": 1, "samples": ["replay"]}), &[]);
 }
